@@ -11,6 +11,7 @@
 import ScionTime.Proofs.Ntske
 import ScionTime.Gen.Ntske
 import ScionTime.Gen.Ntp
+import ScionTime.Model.ClientNtp
 namespace ScionTime.C20
 open ScionTime.Ntske
 
@@ -223,6 +224,86 @@ theorem C20_server_port_defaults (cached : Data) (e : Exchange) (d : Data)
     simp only [List.foldl_append, List.foldl_cons]
     rw [foldl_apply_port post _ hpost]
     simp [Item.apply, hpt, recAead, recCookie, recServer, recPort]
+
+/-! ### The NTP request goes to the server and port named in the exchange (client glue in
+core/client/client_ip.go and client_scion.go; model `ClientNtp.ntsDestination`) -/
+
+open ScionTime.ClientNtp in
+/-- **request destination**: the NTS-protected request (it carries a cookie of the new
+    association) can go to one place only — the IP address that `net.ParseIP` reads from the
+    named server (in its 4-byte form when it has one) and the named port. It does not depend on
+    what the caller's address object held before (the configured server, or the server named by
+    an earlier exchange); and when the named server is no IP literal (`parsed = none`: host name,
+    zoned literal, empty, garbage) nothing is sent. -/
+theorem C20_nts_request_destination (held held' : List Nat × Nat) (parsed : Option (List Nat)) (port : Nat) :
+    ntsDestination held parsed port = ntsDestination held' parsed port ∧
+    (∀ ip p, ntsDestination held parsed port = some (ip, p) →
+      p = port ∧ ∃ lit, parsed = some lit ∧ unmapIP lit = some ip) ∧
+    (parsed = none → ntsDestination held parsed port = none) := by
+  refine ⟨rfl, ?_, ?_⟩
+  · intro ip p h
+    unfold ntsDestination at h
+    cases parsed with
+    | none => simp at h
+    | some lit =>
+      simp only [Option.map_eq_some_iff] at h
+      obtain ⟨a, ha, hp⟩ := h
+      cases hp
+      exact ⟨rfl, lit, rfl, ha⟩
+  · intro h; subst h; rfl
+
+open ScionTime.ClientNtp in
+/-- non-vacuity and the cases of the live stream `c20ntsdest`: `::ffff:127.0.0.2` port 4123 goes
+    to 127.0.0.2:4123 whatever was configured; `2001:db8::7f00:1` stays a 16-byte address; a
+    server that is no IP literal goes nowhere. -/
+example :
+    ntsDestination ([127, 0, 0, 1], 123) (some (v4mappedPrefix ++ [127, 0, 0, 2])) 4123 = some ([127, 0, 0, 2], 4123) ∧
+    ntsDestination ([127, 0, 0, 1], 123)
+      (some [0x20, 0x01, 0x0d, 0xb8, 0, 0, 0, 0, 0, 0, 0, 0, 127, 0, 0, 1]) 123
+      = some ([0x20, 0x01, 0x0d, 0xb8, 0, 0, 0, 0, 0, 0, 0, 0, 127, 0, 0, 1], 123) ∧
+    ntsDestination ([127, 0, 0, 1], 123) none 4123 = none := by decide
+
+open ScionTime.ClientNtp in
+/-- Composition with the key exchange: after a successful exchange the request goes to what
+    `net.ParseIP` (a parameter: `parseIP`) makes of the *last server record* of the accepted
+    stream and to the port of the *last port record* — never to the configured address when the
+    exchange named one. -/
+theorem C20_request_goes_to_named_server (parseIP : List Byte → Option (List Nat))
+    (cached : Data) (e : Exchange) (d : Data) (held : List Nat × Nat)
+    (h : exchangeKeys cached e = (d, none)) :
+    ∃ items, Accepts e.stream.flatten items ∧
+      (∀ pre sv post, items = pre ++ sv :: post → sv.typ = recServer →
+        (∀ it ∈ post, it.typ ≠ recServer) →
+        (parseIP sv.body = none → ntsDestination held (parseIP d.server) d.port = none) ∧
+        (∀ ip p, ntsDestination held (parseIP d.server) d.port = some (ip, p) →
+          ∃ lit, parseIP sv.body = some lit ∧ unmapIP lit = some ip)) ∧
+      (∀ pre pt post, items = pre ++ pt :: post → pt.typ = recPort →
+        (∀ it ∈ post, it.typ ≠ recPort) →
+        ∀ ip p, ntsDestination held (parseIP d.server) d.port = some (ip, p) →
+          p = be16 (pt.body.getD 0 0) (pt.body.getD 1 0)) := by
+  obtain ⟨items, hacc, _, _, hsv, hpt⟩ := C20_server_port_defaults cached e d h
+  refine ⟨items, hacc, ?_, ?_⟩
+  · intro pre sv post hi ht hpost
+    have hs := hsv pre sv post hi ht hpost
+    rw [hs]
+    refine ⟨fun hn => by rw [hn]; rfl, ?_⟩
+    intro ip p hd
+    obtain ⟨_, lit, hl, hu⟩ := (C20_nts_request_destination held held _ _).2.1 ip p hd
+    exact ⟨lit, hl, hu⟩
+  · intro pre pt post hi ht hpost ip p hd
+    have hp := hpt pre pt post hi ht hpost
+    obtain ⟨hpp, _⟩ := (C20_nts_request_destination held held _ _).2.1 ip p hd
+    rw [hpp, hp]
+
+open ScionTime.ClientNtp in
+/-- The SCION client before the fix: a server name that is no IP literal — which an NTS-KE
+    server is free to send (RFC 8915 allows a host name) — made the client panic
+    (`panic(errUnexpectedAddrType)`; failing input found by the check on the unrepaired code:
+    `cli.ntsdest tr=scion parsed=- …` with `ntske.Data{Server: "localhost"}`, sig
+    `C08:client:panic-on-key-exchange-data`); as repaired nothing is sent and the call fails. -/
+theorem C20_scion_client_old_panics_on_server_name :
+    ntsDestinationSCIONOld none 4123 = .panic ∧ ntsDestination ([127, 0, 0, 1], 123) none 4123 = none := by
+  decide
 
 /-! ### failure_leaves_nothing, rekey_only_when_empty -/
 
